@@ -124,9 +124,15 @@ def run(ck, facts, tier):
             else:
                 ck.bad("R20.1", "R20.1@str#lexical", "lexical form of str is not the string itself", lf.loc)
         else:
-            shapes = ["".join(x[1] if x[0] == "lit" else "{}" for x in t) if t is not None else None for _, _, t in tpls]
-            if not shapes or any(s != "{}" for s in shapes):
-                ck.bad("R20.1", "R20.1@%s#template" % ty, "lexical form of %s is not the plain `{}` rendering (templates %r)" % (ty, shapes), lf.loc)
+            shapes = ["".join(x[1] if x[0] == "lit" else ("{:spec}" if len(x) > 2 and x[2] else "{}") for x in t) if t is not None else None
+                      for _, _, t in tpls]
+            # which formatting traits are used for the arguments (Display only: LowerExp / UpperExp / Debug print another language)
+            fmt_ctors = sorted({t2["f"]["name"].split("::")[-1] for _, t2 in lf.calls()
+                                if call_name_matches(t2, r"fmt::rt::Argument::<'_>::new_\w+$")})
+            if not shapes or any(s != "{}" for s in shapes) or fmt_ctors not in ([], ["new_display"]):
+                ck.bad("R20.1", "R20.1@%s#template" % ty, "lexical form of %s is not the plain `{}` Display rendering (templates %r, "
+                       "formatting traits %r): a precision or an exponent format prints another numeral, possibly with fewer digits than "
+                       "the value needs" % (ty, shapes, fmt_ctors), lf.loc)
                 continue
             ck.ok("R20.1", "%s rendered with `{}` (std Display)" % ty)
             if ty == "f64":
